@@ -19,7 +19,8 @@ package pgo
 //@   ensures [C01,C10] a-package-clause-written-in-the-patch-is-always-the-guard: err == nil ==> file.Package == ite(len(ret("pgo/augment.Augment", 0, 1)) > 0 && ret("pgo/augment.Augment", 0, 1)[0].typ == dyn("*github.com/uber-go/gopatch/internal/pgo/augment.FakePackage"), "", parsedPackage)
 //@   ensures [C17] pattern-comments-are-the-comments-of-the-text: err == nil ==> file.Comments == parsedComments
 //@   ensures err == nil ==> file != nil && fresh(file)
-//@   assigns group(ast), parsedImports, parsedPackage, parsedComments, allof("E.pgo_augment_PosAdjustment"), allof("E.parse_section_LinePos")
+//@   assigns group(ast), group(augs), parsedImports, parsedPackage, parsedComments, allof("E.pgo_augment_PosAdjustment"), allof("E.parse_section_LinePos"), scanLeft, scanEnd, scanSize, scanFile, lastTok, tokAfterDots, sameLineAfterDots, outs
+//@   ensures only-its-own-buffers-are-written-to: forall x Iface {outs[x]} :: !fresh(x.val) ==> outs[x] == old(outs)[x]
 //@   ensures-assumed typing: err == nil ==> file.Node != nil && file.Node.val != nil && fsFileOf(fset, nodePos(file.Node)) != nil
 
 // Mapping the elisions of the patch back into the parsed tree (ast traversal; summarised).
